@@ -363,7 +363,9 @@ namespace pika::detail {
 
     void runtime::stopping()
     {
+        PIKA_VERIF_PRE("rt.state", this);
         state_.store(pika::runtime_state::stopped);
+        PIKA_VERIF_POST("rt.state", this, static_cast<std::uint64_t>(static_cast<std::uint8_t>(pika::runtime_state::stopped)), 1);
 
         using value_type = pika::util::detail::function<void()>;
 
@@ -384,7 +386,9 @@ namespace pika::detail {
     void runtime::set_state(pika::runtime_state s)
     {
         PIKA_LOG(info, "{}", pika::detail::get_runtime_state_name(s));
+        PIKA_VERIF_PRE("rt.state", this);
         state_.store(s);
+        PIKA_VERIF_POST("rt.state", this, static_cast<std::uint64_t>(static_cast<std::uint8_t>(s)), 0);
     }
 
     ///////////////////////////////////////////////////////////////////////////
@@ -994,6 +998,7 @@ namespace pika::detail {
 
                 // Call pika_main
                 result = func();
+                PIKA_VERIF_POST("rt.result", this, static_cast<std::uint64_t>(static_cast<std::uint32_t>(result)), 0);
             }
         }
         catch (...)
@@ -1105,6 +1110,7 @@ namespace pika::detail {
         {
             stop_called_ = true;
             stop_done_ = true;
+            PIKA_VERIF_POST("rt.fin", this, 0, 0);
             wait_condition_.notify_all();
         }
     }
@@ -1114,6 +1120,7 @@ namespace pika::detail {
         std::unique_lock<std::mutex> l(mtx_);
         PIKA_LOG(info, "runtime: about to enter wait state");
         wait_condition_.wait(l, [&] { return stop_done_; });
+        PIKA_VERIF_POST("rt.waitfin", this, stop_done_ ? 1 : 0, 0);
         PIKA_LOG(info, "runtime: exiting wait state");
     }
 
@@ -1123,6 +1130,7 @@ namespace pika::detail {
 
         wait_finalize();
         thread_manager_->wait();
+        PIKA_VERIF_POST("rt.waited", this, static_cast<std::uint64_t>(static_cast<std::uint32_t>(result_)), 0);
 
         PIKA_LOG(info, "runtime: exiting wait state");
         return result_;
@@ -1206,6 +1214,7 @@ namespace pika::detail {
                 "Can only suspend runtime from running state");
         }
 
+        PIKA_VERIF_POST("rt.suspend", this, 0, 0);
         thread_manager_->suspend();
 
         set_state(pika::runtime_state::sleeping);
@@ -1223,6 +1232,7 @@ namespace pika::detail {
                 "Can only resume runtime from suspended state");
         }
 
+        PIKA_VERIF_POST("rt.resume", this, 0, 0);
         thread_manager_->resume();
 
         set_state(pika::runtime_state::running);
